@@ -5,11 +5,14 @@ import json
 from fractions import Fraction
 
 from .. import core
-from ..core import Broken, Ctx, Violation
+from ..core import Broken, Ctx, TranslationError, Violation
 
 PROP_FILE = "Properties/C08.v"
 
 TRUSTED = [
+    "translator/c08.py (copy policy of Processor.__deepcopy__ / ModelGroup.__deepcopy__ and of the entry points that "
+    "assign on a copy, through the recognisers of translator/c06.py; fails closed); CPython's copy.deepcopy for every class "
+    "without a custom hook",
     "correspondence harness: harness/props/c08.py (generators, Gallina emission), harness/drivers/c08.py "
     "(settings tree obtained by introspection of the real objects: declared properties with/without setter, "
     "vars(), dict items, model arguments, models of a group; hand table of the setters' range guards)",
@@ -375,10 +378,104 @@ def exhaustive_valid_cases(ctx: Ctx):
                               path="set", ignore=ignore))
             parts = key.split(".")
             parts[-1] = misspell(r, parts[-1])
+            while parts[-1].startswith("_"):       # private names are outside the modelled key space (ASSUME)
+                parts[-1] = misspell(r, key.split(".")[-1])
             cases.append(dict(op="set", det=det, pipe=pipe, key=".".join(parts), kind="misspelt_last", field=field, cls=cls,
                               value=jv(3), path=r.choice(["set", "override"]), ignore=[]))
     return cases
 
+
+
+# --- derived processors (the copy a sweep / calibration / replace assigns on)
+
+VIAS = ["deepcopy", "replace", "create_new_processor", "build_processors", "update_processor"]
+
+
+def derive_value(r, via, field, guarded):
+    """a value the entry point can carry: update_processor hands over numpy floats, build_processors scalars"""
+    if via == "update_processor":
+        if guarded:
+            v = r.choice([x for x in VALID_VALUES[field] if isinstance(x, (int, float)) and not isinstance(x, bool)] or [1])
+            return jv(float(v))
+        return jv(float(r.choice([0, 1, 2, 0.5, 7, 12.25, -3])))
+    if guarded:
+        v = r.choice(VALID_VALUES[field])
+        if via == "build_processors" and isinstance(v, list):
+            v = 1
+        return jv(v) if field in APD_TRIPLE or r.random() < 0.6 or isinstance(v, list) else jv(as_text(r, v).strip())
+    if via == "build_processors":
+        return jv(r.choice([0, 1, 7, 0.5, True, False, "foo", "12", "0.25", "image.fits"]))
+    return jv(r.choice([0, 1, 7, 0.5, True, False, "foo", "12", "1e3", [1, 2], ["3", 0.5], (4, 5), "some_word"]))
+
+
+def derive_case(r, det, pipe, key, cls, field, kind, via):
+    guarded = cls in ("geo", "env", "char") and kind == "valid"
+    ignore = []
+    if det == "apd" and key.split(".")[-1] in APD_TRIPLE and key.startswith("detector.characteristics."):
+        ignore = [["detector", "characteristics", f] for f in APD_IGNORE]
+    return dict(op="derive", det=det, pipe=pipe, key=key, kind=kind, field=field, cls=cls, via=via,
+                value=derive_value(r, via, field, guarded), path=via, ignore=ignore)
+
+
+def gen_derive_cases(ctx: Ctx, budget: int):
+    """keys assigned on a derived processor: every class of setting (detector sub-objects, enabled and DISABLED models,
+    their flags, arguments, items of nested dict arguments), mostly valid (a refused assignment has nothing to leak)."""
+    r = ctx.rng("derive")
+    cases = []
+    n = 0
+    while len(cases) < budget:
+        det = ["ccd", "cmos", "mkid", "apd"][n % 4]
+        n += 1
+        pipe = gen_pipe(r)
+        vks = valid_keys(det, pipe)
+        by_cls = {}
+        for k in vks:
+            by_cls.setdefault(k[1], []).append(k)
+        # one key of every class present (so that no class is starved by the 14+ detector fields)
+        chosen = [r.choice(v) for _, v in sorted(by_cls.items())]
+        dis = [k for k in vks if k[1] in ("enabled", "arg", "dictitem") and not _model_enabled(pipe, k[0])]
+        if dis:
+            chosen.append(r.choice(dis))
+        for key, cls, field in chosen:
+            via = r.choice(VIAS)
+            if r.random() < 0.85:
+                k2, kind = key, "valid"
+            else:
+                k2, kind = mutate_key(r, key, pipe)
+                if not ok_str(k2):
+                    continue
+            cases.append(derive_case(r, det, pipe, k2, cls, field, kind, via))
+    return cases[:budget]
+
+
+def _model_enabled(pipe, key: str) -> bool:
+    parts = key.split(".")
+    if parts[0] != "pipeline" or len(parts) < 3:
+        return True
+    for m in pipe.get(parts[1], []):
+        if m["name"] == parts[2]:
+            return bool(m["enabled"])
+    return True
+
+
+def exhaustive_derive_cases(ctx: Ctx):
+    """every pipeline key of one rich pipeline (an enabled and a disabled model, dict- and list-valued arguments) and
+    one key per detector section, through every entry point."""
+    r = ctx.rng("exh_derive")
+    pipe = {"photon_collection": [dict(func="f.illumination", name="illumination", enabled=True,
+                                       arguments={"level": jv(1), "lst": jv([1, 2]),
+                                                  "d": {"t": "dictv", "v": {"k": jv(1), "w": jv("foo")}}}),
+                                  dict(func="f.shot_noise", name="shot_noise", enabled=False,
+                                       arguments={"type": jv("poisson"), "d": {"t": "dictv", "v": {"k": jv(2)}}})],
+            "charge_generation": [dict(func="f.cdm", name="cdm", enabled=False, arguments={"beta": jv(0.5)})]}
+    cases = []
+    keys = [k for k in valid_keys("ccd", pipe) if k[1] in ("enabled", "arg", "dictitem")]
+    keys += [("detector.geometry.row", "geo", "row"), ("detector.environment.temperature", "env", "temperature"),
+             ("detector.characteristics.quantum_efficiency", "char", "quantum_efficiency")]
+    for via in VIAS:
+        for key, cls, field in keys:
+            cases.append(derive_case(r, "ccd", pipe, key, cls, field, "valid", via))
+    return cases
 
 # --- literal texts
 
@@ -509,6 +606,8 @@ def gen_validate_cases(ctx: Ctx, budget: int):
 
 HEADER = ("From Coq Require Import ZArith List String.\nFrom PyxelV Require Import Model.Keys.\n"
           "Import ListNotations.\nOpen Scope string_scope.\n")
+WHEADER = ("From Coq Require Import ZArith List String.\nFrom PyxelV Require Import Model.Keys Model.KeysWorld.\n"
+           "From PyxelGen Require Import Gen_C08.\nImport ListNotations.\nOpen Scope string_scope.\n")
 
 
 class Pool:
@@ -565,6 +664,28 @@ def emit_set_file(pairs) -> str:
             "Eval vm_compute in report cases.\n")
 
 
+
+def emit_world_file(pairs) -> str:
+    trees = []
+    for _, o in pairs:
+        trees += [o["before"], o["after"], o["orig_after"], o["sib_before"], o["sib_after"], o["later"]]
+    pool = Pool(trees)
+    items = []
+    for c, o in pairs:
+        ign = core.clist(core.clist(core.cstr(x) for x in p) for p in c.get("ignore", []))
+        shared = core.clist(core.clist(core.cstr(x) for x in p) for p in o["shared"])
+        items.append(
+            f"{{| w_k := {{| c_tree := {pool.tree(o['before'])};\n     c_key := {ckey(c['key'])}; c_raw := {cv(c['value'])}; c_ignore := {ign};\n"
+            f"     o_has := {cres(o['has'], core.cbool)}; o_set := {core.copt(o['set'], str)};\n"
+            f"     o_after := {pool.tree(o['after'])};\n     o_get := {cres(o['get'], cv)} |}};\n"
+            f"   w_via := {core.cstr(c['via'])}; w_orig_after := {pool.tree(o['orig_after'])};\n"
+            f"   w_sib_before := {pool.tree(o['sib_before'])}; w_sib_after := {pool.tree(o['sib_after'])};\n"
+            f"   w_later := {pool.tree(o['later'])}; w_shared := {shared} |}}")
+    body = ";\n  ".join(items)
+    return (WHEADER + "\n".join(pool.defs) + f"\nDefinition cases : list wcase := [\n  {body}\n].\n"
+            "Eval vm_compute in wreport src_copy_policy src_copy_sites cases.\n")
+
+
 def emit_eval_file(triples) -> str:
     items = []
     for t, exp, o in triples:
@@ -591,7 +712,8 @@ def emit_validate_file(pairs) -> str:
 
 # ------------------------------------------------------------------------------------------ classification (signature only)
 
-CLAUSES = {1: "unresolved_rejected", 2: "failed_set_changes", 3: "frame", 4: "set_get", 5: "has_sound"}
+CLAUSES = {1: "unresolved_rejected", 2: "failed_set_changes", 3: "frame", 4: "set_get", 5: "has_sound",
+           6: "derived_source_changed", 7: "derived_sibling_changed", 8: "derived_later_copy_differs"}
 
 
 def walk_info(tree, key: str):
@@ -633,11 +755,38 @@ def walk_info(tree, key: str):
     return landing, "missing"
 
 
+
+def _flat(t, pre=()):
+    if "leaf" in t:
+        return {pre: json.dumps(t["leaf"], sort_keys=True)}
+    out = {pre: "node:" + t["node"]}
+    for n, mk, g, sub in t["members"]:
+        out.update(_flat(sub, pre + (n + ":" + mk,)))
+    return out
+
+
+def _diff_trees(a, b):
+    """keys whose entry differs (reporting only; the decision was taken in Coq)"""
+    fa, fb = _flat(a), _flat(b)
+    return sorted(".".join(x.split(":")[0] for x in k) for k in set(fa) | set(fb) if fa.get(k) != fb.get(k))
+
+
 def set_violation(c, o, clause_n) -> Violation:
     landing, target = walk_info(o["before"], c["key"])
     clause = CLAUSES[clause_n]
     sig = dict(clause=clause, landing=landing, target=target)
-    case = {k: c[k] for k in ("op", "det", "pipe", "key", "value", "path", "ignore", "kind")}
+    case = {k: c[k] for k in ("op", "det", "pipe", "key", "value", "path", "ignore", "kind", "via", "field", "cls") if k in c}
+    if clause_n >= 6:
+        sig["shared"] = "yes" if o.get("shared") else "no"
+        obs = dict(set=o["set"], shared_objects=o.get("shared"),
+                   changed=_diff_trees(o["before"], {6: o["orig_after"], 7: o["sib_after"], 8: o["later"]}[clause_n])[:6])
+        return Violation(clause=clause, case=case, observed=obs,
+                         expected={6: "the processor the copy was derived from keeps every setting",
+                                   7: "every other copy keeps every setting",
+                                   8: "a copy derived afterwards has the settings of its source"}[clause_n],
+                         what=f"{c['key']!r} := {json.dumps(c['value'])[:60]} assigned on a copy made by {c['via']} of a "
+                              f"{c['det']} processor: {clause}; differs at {obs['changed'][:3]}; objects shared with the copy: "
+                              f"{o.get('shared')}", sig=sig)
     return Violation(clause=clause, case=case,
                      observed=dict(has=o["has"], set=o["set"], get=o["get"]),
                      expected={1: "has() does not confirm the key, so the assignment must raise",
@@ -694,6 +843,73 @@ def leg_set(ctx: Ctx, cases, tag="s"):
         ctx.dist("set_outcome", o["set"] or "ok")
         ctx.dist("entry_point", c["path"])
     return pairs, nm
+
+
+
+def leg_derive(ctx: Ctx, cases, tag="w"):
+    obs = core.run_driver(ctx, "c08", cases, workers=8)
+    pairs = []
+    for c, o in zip(cases, obs):
+        if "crash" in o or "driver_error" in o:
+            ctx.broken.append(Broken("correspondence", "implementation driver failed (derived processor)", str(o)[:600], c))
+            continue
+        pairs.append((c, o))
+    per = 30
+    files = {f"{tag}_{k // per:03d}": emit_world_file(pairs[k:k + per]) for k in range(0, len(pairs), per)}
+    res = core.coq_eval_many(ctx, files, timeout=900, par=8)
+    nm = 0
+    leads = []
+    for k, name in enumerate(sorted(files)):
+        ok, evals, se = res[name]
+        chunk = pairs[k * per:(k + 1) * per]
+        if not ok or len(evals) != 1:
+            ctx.broken.append(Broken("correspondence", f"case file {name}.v did not evaluate", core.tail(se, 15)))
+            continue
+        codes = core.parse_int_list(evals[0])
+        if len(codes) != len(chunk):
+            ctx.broken.append(Broken("correspondence", f"case file {name}.v: wrong report length", evals[0][:200]))
+            continue
+        for (c, o), code in zip(chunk, codes):
+            mk, mask = code % 10, code // 10
+            if mk:
+                nm += 1
+                part = {1: "has", 2: "set outcome", 3: "settings of the copy after", 4: "get after",
+                        5: "settings of the source after an assignment on its copy",
+                        6: f"objects shared between a processor and its copies (implementation shares {o['shared']})",
+                        7: "settings of a fresh copy"}.get(mk, "?")
+                ctx.broken.append(Broken("correspondence", "Model/KeysWorld.v vs derived processors",
+                                         f"model and implementation differ on {part} for key {c['key']!r} via {c['via']}",
+                                         dict(case={k: c[k] for k in ("det", "pipe", "key", "value", "via", "kind")},
+                                              observed=dict(has=o["has"], set=o["set"], get=o["get"], shared=o["shared"]))))
+                if o["shared"]:
+                    leads.append((c, o))
+            for n in range(1, 9):
+                if mask & (1 << (n - 1)):
+                    ctx.violations.append(set_violation(c, o, n))
+    for c, o in pairs:
+        ctx.count("evaluations")
+        ctx.dist("derive_via", c["via"])
+        ctx.dist("derive_key_class", c["cls"] + ("" if c["kind"] == "valid" else "/" + c["kind"]))
+        ctx.dist("derive_target_model", "detector" if not c["key"].startswith("pipeline.") else
+                 ("enabled_model" if _model_enabled(c["pipe"], c["key"]) else "disabled_model"))
+        ctx.dist("derive_outcome", o["set"] or "ok")
+        if o.get("internal"):
+            ctx.dist("derive_internal_sharing", "yes")
+    return pairs, nm, leads
+
+
+def directed_derive_cases(ctx: Ctx, leads, cap=60):
+    """objects were seen shared between a processor and its copy: assign, on a copy, every setting below them"""
+    r = ctx.rng("directed")
+    out, seen = [], set()
+    for c, o in leads:
+        for sp in o["shared"]:
+            pre = ".".join(sp) + "."
+            for key, cls, field in valid_keys(c["det"], c["pipe"]):
+                if key.startswith(pre) and (c["det"], key, json.dumps(c["pipe"], sort_keys=True)) not in seen and len(out) < cap:
+                    seen.add((c["det"], key, json.dumps(c["pipe"], sort_keys=True)))
+                    out.append(derive_case(r, c["det"], c["pipe"], key, cls, field, "valid", c["via"]))
+    return out
 
 
 def leg_eval(ctx: Ctx, texts, tag="e"):
@@ -834,10 +1050,23 @@ def new_violations(ctx: Ctx):
 def run(ctx: Ctx):
     ctx.trusted += TRUSTED
     ctx.assumptions += ASSUME
-    core.proof_leg(ctx, {}, PROP_FILE)
+    from translator import c08 as tr
+    try:
+        gen = {"Gen_C08.v": tr.translate(ctx.repo)}
+    except TranslationError as ex:
+        ctx.broken.append(Broken("translation", "translator/c08.py (copy policy of derived processors)", str(ex)))
+        ctx.log(f"translation failed (continuing with the fallback table): {ex}")
+        gen = {"Gen_C08.v": tr.FALLBACK}
+    core.proof_leg(ctx, gen, PROP_FILE)
 
     set_cases = exhaustive_valid_cases(ctx) + gen_set_cases(ctx, ctx.budget(int(__import__('os').environ.get('C08_N', 600)), 4000))
     pairs, nm = leg_set(ctx, set_cases)
+    dcases = exhaustive_derive_cases(ctx) + gen_derive_cases(ctx, ctx.budget(240, 1600))
+    dpairs, dnm, leads = leg_derive(ctx, dcases)
+    nm += dnm
+    if leads and not new_violations(ctx):
+        _, dnm2, _ = leg_derive(ctx, directed_derive_cases(ctx, leads), tag="wd")
+        nm += dnm2
     texts = gen_eval_cases(ctx, ctx.budget(900, 6000))
     triples = leg_eval(ctx, texts)
     vcases = gen_validate_cases(ctx, ctx.budget(240, 1500))
@@ -845,11 +1074,15 @@ def run(ctx: Ctx):
 
     distinct = {(c["det"], c["key"], json.dumps(c["value"], sort_keys=True), json.dumps(c["pipe"], sort_keys=True)) for c, o in pairs
                 if c["kind"] != "valid" or o["set"] is None}
-    ctx.cov["distinct_nontrivial"] = len(distinct) + len({t for t, _, _ in triples}) + len(vpairs)
+    ddistinct = {(c["det"], c["key"], c["via"], json.dumps(c["value"], sort_keys=True), json.dumps(c["pipe"], sort_keys=True))
+                 for c, o in dpairs if o["set"] is None}
+    ctx.cov["distinct_nontrivial"] = len(distinct) + len(ddistinct) + len({t for t, _, _ in triples}) + len(vpairs)
     ctx.cov["rule"] = ("assignments: distinct (detector, pipeline, key, value) where the key is misspelt/truncated/extended/"
                        "swapped or the assignment succeeds (a full settings snapshot is compared before/after); "
+                       "derived processors: distinct (detector, pipeline, key, value, entry point) whose assignment on the copy "
+                       "succeeds (source, sibling copy, later copy and object identities are compared); "
                        "literal texts: distinct texts; validate_steps: every generated step list")
-    ctx.cov["traces_validated_against_impl"] = len(pairs) + len(triples) + len(vpairs)
+    ctx.cov["traces_validated_against_impl"] = len(pairs) + len(dpairs) + len(triples) + len(vpairs)
     ctx.cov["disagreements_checked"] = nm
     ctx.cov["exhaustive"] = "every geometry/environment/characteristics field of the 4 detector types, valid and misspelt"
     for c, o in pairs[:3]:
@@ -872,6 +1105,11 @@ def search(ctx: Ctx):
     r.shuffle(ctx2_cases)
     keep_broken = list(ctx.broken)
     leg_set(ctx, ctx2_cases, tag="ss")
+    dc = gen_derive_cases(ctx, 900)
+    r.shuffle(dc)
+    _, _, leads = leg_derive(ctx, dc, tag="sw")
+    if leads:
+        leg_derive(ctx, directed_derive_cases(ctx, leads, cap=200), tag="swd")
     leg_eval(ctx, gen_eval_cases(ctx, 3000), tag="se")
     leg_validate(ctx, gen_validate_cases(ctx, 600), tag="sv")
     ctx.broken[:] = keep_broken + [b for b in ctx.broken if b not in keep_broken][:5]
@@ -886,7 +1124,24 @@ def replay(ctx: Ctx, rp: dict) -> int:
         return 1
     core.ensure_lib(ctx, targets=core.lib_targets_of([(core.THEORIES / PROP_FILE).read_text()]))
     print("case:", json.dumps(case)[:1500])
-    if case["op"] == "set":
+    if case["op"] == "derive":
+        from translator import c08 as tr
+        gen = ctx.build / "gen"
+        gen.mkdir(parents=True, exist_ok=True)
+        try:
+            text = tr.translate(ctx.repo)
+        except TranslationError:
+            text = tr.FALLBACK
+        (gen / "Gen_C08.v").write_text(text)
+        core.coqc(ctx, gen / "Gen_C08.v", [(gen, "PyxelGen")])
+        o = core.run_driver(ctx, "c08", [case], workers=1)[0]
+        print("implementation now: set =", o.get("set"), " get =", o.get("get"), " shared objects =", o.get("shared"))
+        print("  source changed at:", _diff_trees(o["before"], o["orig_after"])[:6])
+        print("  sibling copy changed at:", _diff_trees(o["sib_before"], o["sib_after"])[:6])
+        print("  later copy differs from the source at:", _diff_trees(o["before"], o["later"])[:6])
+        ok, evals, se = core.coq_eval(ctx, "replay", emit_world_file([(case, o)]))
+        bad = ok and core.parse_int_list(evals[0])[0] // 10 != 0
+    elif case["op"] == "set":
         o = core.run_driver(ctx, "c08", [case], workers=1)[0]
         print("implementation now: has =", o.get("has"), " set =", o.get("set"), " get =", o.get("get"))
         ok, evals, se = core.coq_eval(ctx, "replay", emit_set_file([(case, o)]))
